@@ -18,9 +18,9 @@ TablesFile == "tables.json"
 Trace == ndJsonDeserialize(TraceFile)
 Tables == JsonDeserialize(TablesFile)
 
-NamesTab == Tables.names
-ContentTab == Tables.contents
-ObjTab == Tables.objects
+BytesOf(k) == Tables.names[k]
+BlobIdFn(c) == Tables.contents[c].blobid
+ObjOfTok(tok) == Tables.objects[tok]
 
 INSTANCE GoitAsIs
 
@@ -49,7 +49,7 @@ Judge(i) ==
 TraceInit == l = 1 /\ cnt = <<>>
 TraceNext ==
     /\ l <= Len(Trace)
-    /\ IF Trace[l].kind = "step" THEN Judge(l) ELSE cnt' = cnt
+    /\ IF Trace[l].kind = "step" /\ "dup" \notin DOMAIN Trace[l] THEN Judge(l) ELSE cnt' = cnt
     /\ l' = l + 1
     /\ (l = Len(Trace)) => PrintT(ToJson([k |-> "CNT", c |-> cnt']))
 
